@@ -7,7 +7,7 @@ from ..terms import A, C, F, V, L, NIL, call, conj, TRUE, FAIL, show_clause, sho
 
 ID = 'C01'
 LEVEL = 'model_checking'
-RULE = ('(L8) every parenthesisation of up to 4 goals out of {m(Vi), o(Vi), m(V1), true, fail}; (L7) every ordered triple of a 13-clause alphabet over two predicates in which the same variable names play different roles and some clauses are decidable at compile time (fail first, true before fail); ' 'L1: every single-clause predicate p(t1..tk) :- B, k<=2 over 14 head-argument shapes incl. [X,Y|T] (k=3 over 7, '
+RULE = ('(L9) every body of 2 or 3 goals out of {X=Y, Y=Z, Z=X, h(X,Y), h(Y,Z), h(Z,X), s(X), s(Y), s(Z)} with h(V,V). h(b,_). in both clause orders (chains of aliases made and undone in different orders), queried p(A,B,C) p(A,A,C) p(A,B,A); (L8) every parenthesisation of up to 4 goals out of {m(Vi), o(Vi), m(V1), true, fail}; (L7) every ordered triple of a 13-clause alphabet over two predicates in which the same variable names play different roles and some clauses are decidable at compile time (fail first, true before fail); ' 'L1: every single-clause predicate p(t1..tk) :- B, k<=2 over 14 head-argument shapes incl. [X,Y|T] (k=3 over 7, '
         'and k=0), B in {true, one [thorough: or two] goals from q(X) q(Y) r(X,Y) X=Y X=a X\\=a Y=f(X) fail}, each '
         'queried with EVERY tuple of query-argument shapes (unbound, aliased, partial, ground). L2: every program '
         'of <=2 [thorough: 3] clauses over p/1,q/1 with head argument in {X,a,b,f(X)} and body of <=1 goal '
@@ -440,6 +440,32 @@ def l6_cases():
         idx += 1
 
 
+
+# ---------------------------------------------------------------- L9: chains of aliased variables
+# Every body of 2 or 3 goals that alias X, Y, Z to each other explicitly (=) or through a callee with a repeated
+# head variable h(V,V) that has a second clause binding differently, in both clause orders, and goals that bind
+# the end of a chain: an alias made earlier must survive the undoing of one made later, at every answer.
+Z = V('Z')
+L9_SUPPORTS = [[(F('h', X, X), None), (F('h', A('b'), ('v', ('_', 1))), None), (F('s', A('a')), None), (F('s', A('c')), None)],
+               [(F('h', A('b'), ('v', ('_', 1))), None), (F('h', X, X), None), (F('s', A('a')), None), (F('s', A('c')), None)]]
+L9_GOALS = [call(F('=', X, Y)), call(F('=', Y, Z)), call(F('=', Z, X)), call(F('h', X, Y)), call(F('h', Y, Z)), call(F('h', Z, X)),
+            call(F('s', X)), call(F('s', Y)), call(F('s', Z))]
+
+
+def l9_cases():
+    idx = 0
+    for ng in (2, 3):
+        for gs in itertools.product(range(len(L9_GOALS)), repeat=ng):
+            for si in range(len(L9_SUPPORTS)):
+                yield idx, gs, si
+                idx += 1
+
+
+def l9_case(gs, si):
+    clause = (F('p', X, Y, Z), conj(*[L9_GOALS[g] for g in gs]))
+    queries = [F('p', QA, QB, V('C')), F('p', QA, QA, V('C')), F('p', QA, QB, QA)]
+    return Case([(L9_SUPPORTS[si], True, True), ([clause], True, False)], [], queries, repeat=1, budget=True), clause
+
 # ---------------------------------------------------------------- plan / run
 NSH = 48
 
@@ -495,6 +521,7 @@ def plan(tier):
     sh += [('L6', k, 16) for k in range(16)]
     sh += [('L7', k, 16) for k in range(16)]
     sh += [('L8', k, 16) for k in range(16)]
+    sh += [('L9', k, 16) for k in range(16)]
     sh += [('L2b', k, NSH, 3) for k in range(NSH)]
     sh += [('L1b', k, 16, 2) for k in range(16)] + [('L1b', k, NSH, 3) for k in range(NSH)]
     if not q:
@@ -556,6 +583,18 @@ def run_shard(spec):
             account(acc, ('L2b', ncl, idx), case, res, key=case.describe()['scripts'][1]['text'])
             if idx % 3001 == 0 and res['status'] == 'ok' and res['nontrivial']:
                 acc.sample({'layer': 'L2b', 'program': case.describe()['scripts'][1]['text']}, limit=1)
+    elif spec[0] == 'L9':
+        _, k, n = spec
+        for idx, gs, si in l9_cases():
+            if idx % n != k:
+                continue
+            case, clause = l9_case(gs, si)
+            res = case.run()
+            if res['status'] == 'violation':
+                res['sig'] = 'alias-chain:' + res['sig']
+            account(acc, ('L9', idx), case, res, key='L9|%d|%s' % (si, show_clause(clause)))
+            if idx % 499 == 0 and res['status'] == 'ok' and res['nontrivial']:
+                acc.sample({'layer': 'L9', 'clause': show_clause(clause)}, limit=1)
     elif spec[0] == 'L8':
         from .. import bodies
         from . import treecheck
